@@ -59,7 +59,7 @@ def run(ctx):
                     muts.setdefault(ctx.owner(p_), []).append(nd['name'])
                 if nd.get('k') in ('Assign', 'AssignOp') and H.peel(nd['l']).get('k') == 'Field' and H.peel(nd['l'])['name'] in ('expected', 'out_of_order'):
                     muts.setdefault(ctx.owner(p_), []).append(H.peel(nd['l'])['name'] + (nd.get('op') or '=').rstrip('=') + '=')
-        r.eq('state-mutators', {k: sorted(v) for k, v in muts.items()}, {NEXT: sorted(['insert', 'remove', 'remove', 'remove', 'expected+=', 'expected+=', 'expected+='])}, site,
+        r.eq('state-mutators', {k: sorted(set(v)) for k, v in muts.items()}, {NEXT: sorted(['insert', 'remove', 'expected+='])}, site,
              why='the stash is touched only by the stash / look-up steps of next(), `expected` only by its increments')
 
     with ctx.rule('R14.2', 'exactly one increment of `expected` per emitted item, none otherwise; the emitted tag is the pre-increment expected', floor=6) as r:
